@@ -109,6 +109,62 @@ theorem extra_tilt_is_shift (P : FourierPair ι) (g : Freqs ι) (order : ℕ) (d
   simp only [propagator, List.foldl_append, List.foldl_cons, List.foldl_nil]
   rw [tilt_factor_is_shift_kernel]
 
+/-- shifting twice = shifting by the sum -/
+theorem shift_shift (P : FourierPair ι) (g : Freqs ι) (x y x' y' : ℝ) (ψ : ι → ℂ) :
+    shift P g x' y' (shift P g x y ψ) = shift P g (x + x') (y + y') ψ := by
+  unfold shift
+  rw [P.mult_mult]
+  congr 1; funext k
+  rw [shiftKernel_add]; ring
+
+theorem shift_zero (P : FourierPair ι) (g : Freqs ι) (ψ : ι → ℂ) : shift P g 0 0 ψ = ψ := by
+  unfold shift
+  have : (fun k => shiftKernel (g.kx k) (g.ky k) 0 0) = fun _ => (1 : ℂ) := by
+    funext k; simp [shiftKernel, shiftPhase, cexp_zero]
+  rw [this]; exact P.mult_one ψ
+
+/-- total lateral displacement of a list of tilts over the distance `dz` (tangents add) -/
+noncomputable def totalShiftX (tilts : List (ℝ × ℝ)) (dz : ℝ) : ℝ := (tilts.map fun t => tiltShift t.1 dz).sum
+noncomputable def totalShiftY (tilts : List (ℝ × ℝ)) (dz : ℝ) : ℝ := (tilts.map fun t => tiltShift t.2 dz).sum
+
+/-- Any list of tilts (base tilt and the member tilts of all tilt axes): tilted propagation = untilted propagation followed
+by ONE shift by the sum of the individual displacements. -/
+theorem all_tilts_total_shift (P : FourierPair ι) (g : Freqs ι) (order : ℕ) (dz wl : ℝ) (tilts : List (ℝ × ℝ))
+    (ψ : ι → ℂ) :
+    propagate P g order dz wl tilts ψ
+      = shift P g (totalShiftX tilts dz) (totalShiftY tilts dz) (propagate P g order dz wl [] ψ) := by
+  induction tilts using List.reverseRecOn with
+  | nil => simp [totalShiftX, totalShiftY, shift_zero]
+  | append_singleton ts t ih =>
+    rw [show ts ++ [t] = ts ++ [(t.1, t.2)] from rfl, extra_tilt_is_shift, ih, shift_shift]
+    simp [totalShiftX, totalShiftY]
+
+/-- The tilt list `FresnelPropagator._calculate_array` applies: the scalar base tilt (`base_tilt_x/y` metadata) unless it is
+`(0, 0)`, then — walking the ensemble axes from the last to the first — the member tilt of every tilt axis (`none` = an
+ensemble axis without tilt, which only adds a broadcast dimension). -/
+noncomputable def calcTilts (base : ℝ × ℝ) (axes : List (Option (ℝ × ℝ))) : List (ℝ × ℝ) :=
+  (if base ≠ (0, 0) then [base] else []) ++ axes.reverse.filterMap id
+
+/-- The base tilt always contributes its displacement — also when tilt ensemble axes are present: the propagator built by
+`_calculate_array` shifts by `dz·tan(base) + Σ dz·tan(member tilts)` in each direction. -/
+theorem calc_array_total_shift (P : FourierPair ι) (g : Freqs ι) (order : ℕ) (dz wl : ℝ) (base : ℝ × ℝ)
+    (axes : List (Option (ℝ × ℝ))) (ψ : ι → ℂ) :
+    propagate P g order dz wl (calcTilts base axes) ψ
+      = shift P g (tiltShift base.1 dz + totalShiftX (axes.reverse.filterMap id) dz)
+          (tiltShift base.2 dz + totalShiftY (axes.reverse.filterMap id) dz) (propagate P g order dz wl [] ψ) := by
+  rw [all_tilts_total_shift]
+  congr 1
+  · unfold calcTilts totalShiftX
+    split_ifs with h
+    · simp
+    · have : base = (0, 0) := not_not.mp h
+      simp [this, tiltShift]
+  · unfold calcTilts totalShiftY
+    split_ifs with h
+    · simp
+    · have : base = (0, 0) := not_not.mp h
+      simp [this, tiltShift]
+
 /-- Tilts given per axis (an x-tilt axis and a y-tilt axis) act like the 2-D pair. -/
 theorem axis_vs_pair_tilt (order : ℕ) (kx ky dz wl ms tx ty : ℝ) (tilts : List (ℝ × ℝ)) :
     propagator order kx ky dz wl ms (tilts ++ [(tx, 0), (0, ty)]) = propagator order kx ky dz wl ms (tilts ++ [(tx, ty)]) := by
